@@ -974,6 +974,60 @@ def _do_app_op(hist, op):
         rec = w.api('send', sid, val, tag=op)
         rec.update({'sid': sid, 'val': val, 'before': before, 'c': op.get('c')})
         hist.app_sends.append(rec)
+    elif name == 'send_burst':
+        # one application thread/task sending several messages in program
+        # order (binding order between them)
+        vals = [R.spec_to_value(d) for d in op['data']]
+        recs = []
+        for val in vals:
+            rec = {'id': len(w.api_calls), 'name': 'send',
+                   'args': _brief((sid, val)), 'tag': op, 'seq_start': None,
+                   't_start': None, 'seq_end': None, 't_end': None,
+                   'exc': None, 'ret': None, 'sid': sid, 'val': val,
+                   'before': None, 'c': op.get('c'), 'burst': True}
+            w.api_calls.append(rec)
+            hist.app_sends.append(rec)
+            recs.append(rec)
+        if w.impl == 'threaded':
+            def run():
+                for rec in recs:
+                    rec['before'] = w.peek(sid)
+                    rec['seq_start'] = w.k.ev('api.start', id=rec['id'],
+                                              name='send')
+                    rec['t_start'] = w.k.now
+                    try:
+                        w.server.send(sid, rec['val'])
+                    except K.SimKilled:
+                        raise
+                    except BaseException as e:  # noqa
+                        rec['exc'] = '%s: %s' % (type(e).__name__, e)
+                    if w.k.killing:
+                        return
+                    rec['seq_end'] = w.k.ev('api.end', id=rec['id'],
+                                            name='send', exc=rec['exc'])
+                    rec['t_end'] = w.k.now
+                    rec['after'] = w.peek(sid)
+            w.k.spawn(run, name='A%d:burst' % recs[0]['id'])
+        else:
+            async def arun():
+                for rec in recs:
+                    rec['before'] = w.peek(sid)
+                    rec['seq_start'] = w.k.ev('api.start', id=rec['id'],
+                                              name='send')
+                    rec['t_start'] = w.k.now
+                    try:
+                        await w.server.send(sid, rec['val'])
+                    except asyncio.CancelledError:
+                        raise
+                    except BaseException as e:  # noqa
+                        rec['exc'] = '%s: %s' % (type(e).__name__, e)
+                    if w.k.killing:
+                        return
+                    rec['seq_end'] = w.k.ev('api.end', id=rec['id'],
+                                            name='send', exc=rec['exc'])
+                    rec['t_end'] = w.k.now
+                    rec['after'] = w.peek(sid)
+            w.loop.spawn(arun(), 'A%d:burst' % recs[0]['id'])
     elif name == 'send_shared':
         # one Packet object sent to several sessions (broadcast idiom)
         from engineio import packet as P
